@@ -101,7 +101,14 @@ func zzC04_top() {
 			break
 		}
 	}
+	vObserve("read", zzB2U(err == nil))
 	if err == nil {
+		vObserve("navps", uint64(len(m.AVP)))
+		for _, a := range m.AVP {
+			vObserve("code", uint64(a.Code))
+			vObserve("Length", uint64(a.Length))
+			vObserveBytes("data", a.Data.Serialize())
+		}
 		vAssert(len(m.AVP) == k, "decoder reports exactly the AVPs found by walking by declared length")
 		for i, r := range recs {
 			a := m.AVP[i]
